@@ -232,6 +232,9 @@ func parentMain() {
 		dumpMain(*dumpFlag)
 		return
 	}
+	if err := checkWiring(); err != nil {
+		ev.Fatal("%v", err)
+	}
 	p := makePlan(r.Thorough())
 	r.Rule = "one case = (reader TZ, writer TZ, window, endpoint shape, table layout): the real reader route is called with the window on a database holding one datum per time class x signal type; the statements it sends are executed by chsim; distinct = distinct (reader TZ, writer TZ, window) databases"
 	r.Assumptions = []string{
